@@ -186,7 +186,7 @@ class RefEval:
                 for o in s["out"]:
                     env[o] = None
                 return
-            if s["shape"] == "single":
+            if s["shape"] in ("single", "whole"):
                 env[s["out"][0]] = r
             else:
                 for o, key in zip(s["out"], s["outkeys"]):
@@ -199,7 +199,7 @@ class RefEval:
         if sh == "none":
             return None
         items = [self._get(env, e) for e in ret["items"]]
-        if sh == "single":
+        if sh in ("single", "pass"):
             return items[0]
         if sh == "tuple":
             return tuple(items)
